@@ -167,3 +167,52 @@ func FreezeClock() {
 }
 
 func HH(m *nom.Momentum) types.HashHeight { return m.Identifier() }
+
+// ---- producing momentums outside the mock's fixed +10 s rhythm (same steps as pillar/worker_momentum.go)
+
+func FrontierOf(ch chain.Chain) *nom.Momentum {
+	m, err := ch.GetFrontierMomentumStore().GetFrontierMomentum()
+	if err != nil {
+		panic(err)
+	}
+	return m
+}
+
+// BuildNext lets the pillar elected for (prev.Timestamp + dt) produce a momentum on top of prev containing the
+// node's unconfirmed account blocks (withContent) or nothing.
+func BuildNext(nd *Node, prev *nom.Momentum, dt int64, withContent bool) (*nom.MomentumTransaction, []*nom.AccountBlock, error) {
+	t := time.Unix(int64(prev.TimestampUnix)+dt, 0)
+	exp, err := nd.Cs.GetMomentumProducer(t)
+	if err != nil {
+		return nil, nil, err
+	}
+	kp := KeyOf(*exp)
+	var blocks []*nom.AccountBlock
+	if withContent {
+		blocks = nd.Ch.GetNewMomentumContent()
+	}
+	m := &nom.Momentum{ChainIdentifier: nd.Ch.ChainIdentifier(), PreviousHash: prev.Hash, Height: prev.Height + 1,
+		TimestampUnix: uint64(t.Unix()), Content: nom.NewMomentumContent(blocks), Version: 1}
+	m.EnsureCache()
+	tx, err := nd.Sv.GenerateMomentum(&nom.DetailedMomentum{Momentum: m, AccountBlocks: blocks}, kp.Signer)
+	return tx, blocks, err
+}
+func AddMomentum(ch chain.Chain, tx *nom.MomentumTransaction) error {
+	ins := ch.AcquireInsert("zharness momentum")
+	defer ins.Unlock()
+	return ch.AddMomentumTransaction(ins, tx)
+}
+func RollbackTo(ch chain.Chain, id types.HashHeight) error {
+	ins := ch.AcquireInsert("zharness rollback")
+	defer ins.Unlock()
+	return ch.RollbackTo(ins, id)
+}
+
+// ProduceAt = BuildNext on the frontier + insertion (no contract auto-receives: use nd.Momentum() for those).
+func ProduceAt(nd *Node, dt int64) error {
+	tx, _, err := BuildNext(nd, FrontierOf(nd.Ch), dt, true)
+	if err != nil {
+		return err
+	}
+	return AddMomentum(nd.Ch, tx)
+}
